@@ -13,7 +13,7 @@ func init() {
 	register("C07", propMeta{
 		Level: "other",
 		Explanation: "R07a (path machine over executionContext.run): on every path with a non-empty idempotency key the key is reserved (Referencer.take, kind referenceIks) before the store lookup and before the executor runs, the reservation is released by a defer of run itself (so after the persistence wait, R06a) and never earlier. " +
-			"R07b: every log that is chained in package command (both the real and the preview path) comes from a builder whose every return has, when the key is non-empty, passed through Log.WithIdempotencyKey(Parameters.IdempotencyKey) — for every kind of write, because all kinds funnel through the same function. R07c: the store lookup by key is ledger-scoped and filters on the key column. R07d: between the engine and the store the key is only ever copied. R07f: on the nil-error edge of the store lookup (a log carrying the key exists) no write is executed, whatever else the found log is compared with. R07e: the lookup sees every committed log carrying the key — in the PostgreSQL store its query is conditioned by the key and the ledger only, in the other stores it reads no other field of the stored records — so no committed holder of the key is filtered out of the check.",
+			"R07b: every log that is chained in package command (both the real and the preview path) comes from a builder whose every return has, when the key is non-empty, passed through Log.WithIdempotencyKey(Parameters.IdempotencyKey) — for every kind of write, because all kinds funnel through the same function. R07c: the store lookup by key is ledger-scoped and filters on the key column. R07d: between the engine and the store the key is only ever copied. R07f: on the nil-error edge of the store lookup (a log carrying the key exists) no write is executed, whatever else the found log is compared with. R07g: the key that is reserved and looked up is Parameters.IdempotencyKey itself on every path. R07e: the lookup sees every committed log carrying the key — in the PostgreSQL store its query is conditioned by the key and the ledger only, in the other stores it reads no other field of the stored records — so no committed holder of the key is filtered out of the check.",
 		NotDecided:  "uniqueness in SQL (there is no unique index on idempotency_key; the in-memory reservation plus the lookup is the whole mechanism); behaviour across several processes sharing one ledger.",
 		Trusted:     []string{"sync.Map LoadOrStore/Delete semantics", "defer ordering"},
 		Assumptions: []string{"a single process writes to a ledger (the Referencer is in-memory)"},
@@ -23,6 +23,7 @@ func init() {
 		ruleStoreLookupScoped(c, "R07c", "Store.ReadLogWithIdempotencyKey", "idempotency_key")
 		ruleVerbatimField(c, "R07d", "IdempotencyKey", 3)
 		ruleExactLookup(c, "R07e", c.IfaceMethod(pkgCommand, "Store", "ReadLogWithIdempotencyKey"), "IdempotencyKey", "idempotency_key")
+		ruleRequestKeyIsLookedUp(c, "R07g")
 	})
 	register("C11", propMeta{
 		Level: "other",
